@@ -170,6 +170,16 @@ func (p *Program) Resolve(rel, name string) string {
 		if ct == nil {
 			return name
 		}
+		// a method that used nothing of its receiver may have become a function of the same name
+		if _, stillMethod := ct.Methods[mn]; !stillMethod && bt != nil {
+			if _, wasMethod := bt.Methods[mn]; wasMethod {
+				if _, isNewFunc := cp.Funcs[mn]; isNewFunc {
+					if _, oldFunc := bp.Funcs[mn]; !oldFunc {
+						return note(mn)
+					}
+				}
+			}
+		}
 		if _, ok := ct.Methods[mn]; ok || bt == nil {
 			return note(tn2 + "." + mn)
 		}
